@@ -77,7 +77,8 @@ def run_harnesses(specs, repo='/repo', tier='quick', seed=0, prop=None):
     args = []
     for n in names:
         args += ['--harness', n]
-    args += ['--exact', '-j', str(min(8, max(1, len(names)))), '--output-format=regular']
+    # (kani 0.68 rejects -j together with --output-format=regular; harnesses run sequentially)
+    args += ['--exact', '--output-format=regular']
     rc, out, dt, cmd = _cargo_kani(repo, args, timeout)
     res['checker_cmd'] = 'cd /repo && CARGO_NET_OFFLINE=true ' + ' '.join(cmd)
     if 'error: could not compile' in out or 'error[E' in out or 'Checking harness' not in out:
@@ -100,12 +101,13 @@ def run_harnesses(specs, repo='/repo', tier='quick', seed=0, prop=None):
         covers = [c for c in checks if '.cover.' in c['name']]
         oblig = [c for c in checks if '.cover.' not in c['name']]
         failed = [c for c in oblig if c['status'] == 'FAILURE']
-        undet = [c for c in oblig if c['status'] not in ('SUCCESS', 'FAILURE')]
+        # UNREACHABLE = the assertion can never be reached: discharged
+        undet = [c for c in oblig if c['status'] not in ('SUCCESS', 'FAILURE', 'UNREACHABLE')]
         unwind_fail = [c for c in failed if 'unwinding assertion' in c['desc']]
         failed = [c for c in failed if 'unwinding assertion' not in c['desc']]
         bad_cover = [c for c in covers if c['status'] != 'SATISFIED']
         res['obligations'] += len(oblig)
-        res['discharged'] += len([c for c in oblig if c['status'] == 'SUCCESS'])
+        res['discharged'] += len([c for c in oblig if c['status'] in ('SUCCESS', 'UNREACHABLE')])
         res['solver_s'] += h['time_s'] or 0
         hinfo = {'harness': key, 'checks': len(oblig), 'covers': len(covers), 'verdict': h['verdict'],
                  'time_s': h['time_s'], 'bounded': spec.get('bounded'), 'target': spec.get('target')}
